@@ -14,6 +14,7 @@ import (
 	"github.com/aperturerobotics/util/iosizer"
 	"pgregory.net/rapid"
 	"verif/harness/ev"
+	"verif/harness/sched"
 )
 
 const P = "C20"
@@ -32,7 +33,8 @@ func drive[C any](t *testing.T, rule string, gen func(*rapid.T) C, chk func(*tes
 		Prop: P, Rule: rule, Gen: gen, ReplayRuns: 1,
 		Run: func(t *testing.T, c C) *ev.Verdict {
 			v := &ev.Verdict{}
-			chk(t, v, c)
+			// (a wrapped call that never returns is reported by the watchdog as a stalled case)
+			sched.Guard(func() { chk(t, v, c) })
 			return v
 		},
 	})
